@@ -921,6 +921,23 @@ def enc5_limits(rng, n):
     return out
 
 
+def enc5_caps(rng, n):
+    """acknowledgements with diagnostics after a CONNECT that declines problem information, with the capability
+    setters the server calls after the handshake (third configuration field)"""
+    out = []
+    for t in (T_PUBACK, T_PUBREC, T_PUBREL, T_PUBCOMP, T_SUBACK, T_UNSUBACK):
+        for _ in range(n):
+            p = diag_packet(rng, t)
+            op = op_packet(p)
+            for caps in (1, 2, 3, 4, 8, 5, 10):
+                for npi in (0, 1):
+                    c = enc_case(rng.choice([0, 0, 64, 300]), npi, [op])
+                    f = c.split(";")
+                    f[0] = f[0] + ",%d" % caps
+                    out.append(";".join(f))
+    return out
+
+
 def enc5_valid(rng, n):
     """every kind, through the dump syntax, several ops on one codec"""
     out = []
@@ -1143,7 +1160,7 @@ def suite_dec5(rng, n=40):
 
 def suite_enc5(rng, n=40):
     return (enc5_limits(rng, max(n // 2, 2)) + enc5_valid(rng, n * 8) + enc5_publish(rng, n * 12)
-            + enc5_invalid(rng, n * 3))
+            + enc5_invalid(rng, n * 3) + enc5_caps(rng, max(n // 8, 2)))
 
 
 def suite_sniff(rng, n=40):
